@@ -520,6 +520,13 @@ func unpackNodes(node *yaml.Node) []*yaml.Node {
 			continue
 		}
 		if isMerge {
+			if part.ShortTag() != mergeTag {
+				// This is the (non-alias) value of a merge key, following keys are regular ones again.
+				isMerge = false
+				if part.Kind == yaml.MappingNode {
+					nodes = append(nodes, resolveMapAlias(&yaml.Node{Alias: part}, node).Content...)
+				}
+			}
 			continue
 		}
 		nodes = append(nodes, part)
